@@ -3,7 +3,12 @@
    history, replayed on the model.  Observed per operation: the outcome (insert accepted or
    refused; for a tick every call handed to the recording Messaging / the recording callback,
    in order, with all fields and the mechanism's answer, and the class of the returned error)
-   and the outgoing_eon_keys table afterwards, in insertion order. *)
+   and the outgoing_eon_keys table afterwards, in insertion order.
+   A second stream (KSync) starts at the key generation: n real keyper stacks run complete DKGs
+   over the real shuttermint app (dkgrig / tmfake), each Sync of the real observer is replayed
+   on the producer model (Model.EonPK.sync_blocks), the handler ticks run on the same database.
+   In that stream eon keys (96-byte group elements) are abbreviated to the first 8 bytes of their
+   SHA-256 on both sides (the model only compares keys); the oracle compares the full bytes. *)
 From Coq Require Import List NArith ZArith Bool.
 From Verif Require Import Lib.Bytes Model.EonPK.
 Import ListNotations.
@@ -59,7 +64,14 @@ Inductive cop :=
 | KEon (e act kci : Z)
 | KGen (key : bytes) (e : Z)
 | KTick (perm : list nat) (answers : list bool)
-| KTickFails.
+| KTickFails
+  (* producer stream: one Sync of the real shuttermint observer.  Inputs: the keyper sets and
+     eons announced by the BatchConfig / EonStarted events of the synced blocks (read from the
+     chain), the key generations that finished (the new dkg_result rows, in insertion order; the
+     key is the public key of the stored result).  Observed besides the outgoing table: the eons
+     and tendermint_batch_config tables afterwards. *)
+| KSync (new_cfgs : list cfg_row) (new_eons : list eon_row) (rs : list dkg_outcome)
+        (obs_eons : list eon_row) (obs_cfgs : list cfg_row).
 
 Definition op_of (d : db) (c : cop) : op :=
   match c with
@@ -68,7 +80,13 @@ Definition op_of (d : db) (c : cop) : op :=
   | KGen key e => OpGen key e
   | KTick p answers => OpTick (apply_perm p (outgoing d)) answers
   | KTickFails => OpTickFails
+  | KSync _ _ _ _ _ => OpTickFails   (* not used: KSync is replayed by sync_blocks *)
   end.
+
+Definition eon_row_eqb (a b : eon_row) : bool :=
+  (er_eon a =? er_eon b) && (er_act a =? er_act b) && (er_kci a =? er_kci b).
+Definition cfg_row_eqb (a b : cfg_row) : bool :=
+  (cr_kci a =? cr_kci b) && list_eqb bytes_eqb (cr_keypers a) (cr_keypers b).
 
 (* one observed step: the operation, its observed outcome, the outgoing table afterwards *)
 Definition obs := (cop * outcome * list out_row)%type.
@@ -76,6 +94,10 @@ Definition obs := (cop * outcome * list out_row)%type.
 Fixpoint replay (loopf : loop_fn) (h : hcfg) (d : db) (l : list obs) : bool :=
   match l with
   | [] => true
+  | (KSync nc ne rs oe oc, _, tbl) :: r =>
+      let d' := sync_blocks d nc ne rs in
+      list_eqb eon_row_eqb (eons d') oe && list_eqb cfg_row_eqb (cfgs d') oc
+      && list_eqb out_row_eqb (outgoing d') tbl && replay loopf h d' r
   | (c, out, tbl) :: r =>
       let (d', out') := step_gen loopf h d (op_of d c) in
       outcome_eqb out' out && list_eqb out_row_eqb (outgoing d') tbl && replay loopf h d' r
